@@ -83,6 +83,13 @@ fixed("C18", "15f6c57", "SegmentFile.add stored SegmentLapMsg without calling ex
 fixed("C05", "52b7652", "Encode never stored file.Header.CRC (Header.MarshalBinary has a value receiver, the CRC it computes was lost) although its documentation promises the update",
       "C05-R1-post-state", "file.Header.CRC")
 
+fixed("C02", "2bfc9b0", "parseFitField converted unsigned reads of sint8/sint16/sint32 straight to int64: a signed definition type narrower than its signed profile field (admitted by validateFieldDef) decoded negative values as large positive ones",
+      "C02-R3-sign-extension", "scalar/base-0x01, scalar/base-0x83")
+fixed("C02", "c8f6312", "parseDefinitionMessage returned early for definitions with zero fields and never tested the developer-data flag: the developer field section stayed in the stream and was parsed as record headers",
+      "C02-R6-developer-section", "parseDefinitionMessage")
+fixed("C02", "689701e", "big-endian widening loop d.tmp[j], d.tmp[j+padding] = 0, d.tmp[j] (ascending, overlapping) zeroed every narrow big-endian field and shifted native fields that are read at offset 0",
+      "C02-R8-widening", "decoder.parseDataFields/self-copy-d.tmp")
+
 json.dump({
     "comment": "Genuine defects of tormoder/fit. status=known: recorded, not repaired (reason in DESIGN.md section 1); the check prints KNOWN-FINDING for exactly that (property, rule, key). status=fixed: repaired by the named fix: commit in /repo; suppresses nothing. This file is never written at run time.",
     "findings": F,
